@@ -5,6 +5,7 @@ import (
 	"fmt"
 
 	"fgverif/gen"
+	"fgverif/impl"
 	"fgverif/mon"
 	"fgverif/refinf"
 )
@@ -75,13 +76,35 @@ func (c19) Run(c *mon.Ctx, i int) {
 		d = gen.Periodic(r, n, p)
 	}
 	ops := gen.Schedule(r, len(d.B), gen.FlushPositions(r, len(d.B)), gen.PartitionStyles[r.Intn(4)])
-	out, err := emit(c.API, s, d.B, ops)
+	// call pattern: in a third of the cases the Writer has served another stream
+	// before (written, perhaps closed, then Reset)
+	reused := i%3 == 1
+	var out []byte
+	var err error
+	if reused {
+		var b0, b bytes.Buffer
+		var w impl.Writer
+		w, err = NewWriter(c.API, s, &b0)
+		if err == nil {
+			prev := gen.Make(r, []string{"text", "uniform", "period"}[r.Intn(3)], r.Pick(10, 5000, 20000, 70000))
+			w.Write(prev.B)
+			if r.Bool() {
+				w.Close()
+			}
+			w.Reset(&b)
+			err = runOps(w, d.B, ops)
+			out = b.Bytes()
+		}
+		c.Count("streams-from-a-reused-writer", 1)
+	} else {
+		out, err = emit(c.API, s, d.B, ops)
+	}
 	if err != nil {
 		c.Count("dropped:writer-error", 1)
 		return
 	}
 	c.Eval(1)
-	desc := map[string]interface{}{"setting": s.String(), "data": d.Desc, "data_sha": mon.Sha(d.B), "ops": gen.OpsString(ops), "window": W}
+	desc := map[string]interface{}{"writer_reused_after_reset": reused, "setting": s.String(), "data": d.Desc, "data_sha": mon.Sha(d.B), "ops": gen.OpsString(ops), "window": W}
 	res := refinf.Inflate(out, refinf.Options{Strict: true, MaxOut: len(d.B) + 1024})
 	if res.Status != refinf.Complete || !bytes.Equal(res.Out, d.B) {
 		c.Violate("round-trip|"+s.String(), fmt.Sprintf("%s data %s: reference inflater: %s", s, d.Desc, res), desc)
@@ -89,7 +112,7 @@ func (c19) Run(c *mon.Ctx, i int) {
 	}
 	if res.MaxDist > W {
 		desc["max_distance"] = res.MaxDist
-		c.Violate(fmt.Sprintf("distance-beyond-window|win4k=%v|level=%d", s.Win4K, s.Level), fmt.Sprintf("%s, data %s, ops [%s]: the output contains a match with distance %d, window is %d", s, d.Desc, gen.OpsString(ops), res.MaxDist, W), desc)
+		c.Violate(fmt.Sprintf("distance-beyond-window|win4k=%v|level=%d|reused=%v", s.Win4K, s.Level, reused), fmt.Sprintf("%s, data %s, ops [%s]: the output contains a match with distance %d, window is %d", s, d.Desc, gen.OpsString(ops), res.MaxDist, W), desc)
 		return
 	}
 	lim := refinf.Inflate(out, refinf.Options{Strict: true, Window: W, MaxOut: len(d.B) + 1024})
